@@ -488,6 +488,8 @@ class VExec(Exec):
     # ---------------------------------------------------------- locations (modifies / havoc / frame)
     def resolve_location(self, loc, fr=None, env=None):
         """loc: 'self._x' | 'ghost:name' | 'abs:Cls.field' | 'class:Qual.name' -> descriptor"""
+        if callable(loc):
+            return loc(self, fr, env if env is not None else self.cur_env(fr))
         if loc.startswith('ghost:'):
             return ('ghost', loc[6:])
         if loc.startswith('abs:'):
@@ -534,7 +536,7 @@ class VExec(Exec):
             h = self.heap[d[1]]
             h.attrs[d[2]] = self.havoc_value(h.attrs.get(d[2]), d[2])
         elif d[0] == 'obj':
-            self.havoc_value(VRef(d[1]), loc)
+            self.havoc_value(VRef(d[1]), loc if isinstance(loc, str) else getattr(loc, '__name__', 'loc'))
 
     def havoc_value(self, v, name):
         I = self.interp
